@@ -23,6 +23,16 @@ CLAIMED = {
    note="Trusted: Coq kernel + vm_compute + primitive floats; Reals axioms; harness; LAPACK pinv as an oracle with a per-run residual certificate (numerically singular configurations counted and excluded). scipy's symmetric/antisymmetric fast path is modelled; the exactness theorem assumes the rule is not (nearly) symmetric or has length 1, which the run checks for every recorded rule via the model's own symcode. Complex ratios/sequences are covered by the exact theorem (it holds over R only; the complex case by the thorough sweep) and rounding ('up to conditioning-scaled rounding') by the sweep with an exact-rational oracle, not proved.",
    technique="Coq proof (Reals; list sums) + bit-exact vm_compute correspondence + exact-rational oracle certificate",
    design="4/C07"),
+ 'C15': dict(
+   text="Machine-checked proof (Coq 8.16.1 + MathComp, any field): the executable model of _fd_weights_all/fd_weights_all (nested folds incl. numpy's j-1 = -1 wrap and the reuse of the last inner c_6/c_7) computes, for any distinct nodes in any order, any x0 and any n < len(x), in row k column v the k-th derivative at x0 of the v-th Lagrange basis polynomial (invariant by induction over the nodes with the Leibniz step; the basis is shown to be delta_uv at the nodes with degree <= m-1), hence is exact on every polynomial of degree < len(x); row 0 interpolates, rows k >= 1 sum to zero, fd_weights is row n, n >= len(x) is rejected. The binary64 instance of the same definitions is compared bit-for-bit with fornberg.fd_weights_all each run.",
+   note="Trusted: Coq kernel + vm_compute + primitive floats; no axioms (closed under the global context); harness. 'Up to rounding scaled by the conditioning of the node set' is explored with exact rational weights from the product formula (thorough tier / on breakage), not proved.",
+   technique="Coq/MathComp proof (loop invariant, polynomial algebra) + bit-exact vm_compute correspondence",
+   design="4/C15"),
+ 'C16': dict(
+   text="Machine-checked proof (Coq 8.16.1 + MathComp, any field) on top of C15: the executable model of fd_derivative (left-boundary, interior and right-boundary loops with their window slices) returns, for any distinct grid (uniform or not, increasing or decreasing), n >= 1, mm = n//2 + m, 2mm+2 <= len and any polynomial of degree <= 2mm, the exact n-th derivative at EVERY grid index, with output as long as the input; guards reject n >= len and length mismatch. Binary64 instance compared with fornberg.fd_derivative each run: windows and weights bit-exact, the BLAS dot product within its a-priori rounding bound.",
+   note="Trusted: Coq kernel + vm_compute + primitive floats; no axioms; harness; BLAS dot accumulation order is unknown so the final value is compared within 4*len*u*sum|w_i f_i|. Grids shorter than 2mm+2 are outside the property and the model. Conditioning-scaled rounding explored with exact rational polynomials, not proved.",
+   technique="Coq/MathComp proof (index-range case split over the C15 theorem) + vm_compute correspondence",
+   design="4/C16"),
 }
 REASON_TODO = "not claimed yet: the Coq model, theorems and correspondence for this property are still being built (see DESIGN.md section 8 for the order)"
 def main():
